@@ -517,6 +517,49 @@ def odg_text(root: Node) -> str:
     return "\n".join(blocks(root))
 
 
+def gen_odp_pages():
+    """draw:page with 1-2 text frames holding 1-3 paragraphs; paragraph style names out of
+    {TitleText, Title, SubTitle, BodyText, P1, none}; optionally a comment paragraph and speaker notes."""
+    styles = ["TitleText", "Title", "SubTitle", "BodyText", "P1", None]
+    ST = q("text", "style-name")
+
+    def para(tk, st):
+        return N(T_P, text=tk.v(), **({ST: st} if st else {}))
+    for shape in ((1,), (2,), (3,), (1, 1), (2, 1), (1, 2)):
+        for combo in itertools.product(styles, repeat=sum(shape)):
+            if sum(shape) == 3 and len({c for c in combo}) == 3 and "Title" not in combo and "TitleText" not in combo:
+                continue
+            for extra in ("", "comment", "notes"):
+                tk = Tok()
+                it = iter(combo)
+                frames = []
+                for yi, n in enumerate(shape):
+                    pars = [para(tk, next(it)) for _ in range(n)]
+                    if extra == "comment" and yi == 0:
+                        pars.append(N(O_ANNOT, N(T_P, text=tk.x("COM"))))
+                    frames.append(N(D_FRAME, N(D_TEXTBOX, *pars), **{q("svg", "y"): f"{yi + 1}cm", q("svg", "x"): "1cm"}))
+                if extra == "notes":
+                    frames.append(N(q("presentation", "notes"), N(D_FRAME, N(D_TEXTBOX, N(T_P, text=tk.x("NOTE"))))))
+                titles = sum(1 for c in combo if c and "Title" in c)
+                case = "several-title-styled-paragraphs" if titles > 1 else ("one-title" if titles == 1 else "no-title")
+                yield case + ("+" + extra if extra else ""), N(q("draw", "page"), *frames)
+
+
+def odp_page_tokens(page: Node) -> list:
+    """Visible tokens of the slide (text-box paragraphs outside comments and outside the notes), sorted:
+    text_combined orders by category (title, body, other) by documented design, so only multiplicity is specified."""
+    out = []
+
+    def rec(e, hidden):
+        for c in e.children:
+            h = hidden or c.tag in (O_ANNOT, q("presentation", "notes"))
+            if c.tag == T_P and not h:
+                out.extend(tokens(odf_text(c, skip=frozenset({O_ANNOT}))))
+            rec(c, h)
+    rec(page, False)
+    return sorted(out)
+
+
 # ---------------------------------------------------------------------------------------------
 # PPTX paragraphs (DrawingML text body)
 A = "{http://schemas.openxmlformats.org/drawingml/2006/main}"
